@@ -205,6 +205,11 @@ func Write(a *Archive, dir string) error {
 		if isAbs(fp) || strings.HasPrefix(fp, ".."+string(filepath.Separator)) {
 			return fmt.Errorf("%q: outside parent directory", f.Name)
 		}
+		if fp == ".." {
+			// The parent directory itself ("..", "a/../.."): with no separator
+			// after it the prefix test above does not see it.
+			return fmt.Errorf("%q: outside parent directory", f.Name)
+		}
 		fp = filepath.Join(dir, fp)
 		if err := checkInside(dir, fp, f.Name); err != nil {
 			return err
